@@ -19,6 +19,7 @@ reported as known findings and excluded from the correspondence.
 -/
 import CobaVerif.Model.C12
 import CobaVerif.Model.C09
+import CobaVerif.Model.C13
 
 namespace Coba.C14
 
@@ -464,6 +465,30 @@ def arffDenseSim (lc : LabelCol) (given : Option LType) (attrLines dataLines : L
               match headerIndex (attrs.map (·.1)) nm with
               | none => .error .keyError
               | some i => simDense given none (i : Int) table
+
+/-! ### the lazy row object the learner receives as context (C13's model of the row classes) -/
+
+/-- a table cell as a value of the C13 model (strings, integers, Categoricals; other cells have no counterpart there) -/
+def toC13 : Label → Option C13.Val
+  | .atom (.str s) => some (.str s)
+  | .atom (.num q) => if q.den = 1 then some (.int q.num) else none
+  | .cat s lv => some (.cat s lv)
+  | .list _ => none
+
+def rowC13 : List Label → Option (List C13.Val)
+  | [] => some []
+  | c :: cs => match toC13 c, rowC13 cs with | some v, some vs => some (v :: vs) | _, _ => none
+
+/-- a row of a list-backed table as the reader yields it: a plain list (`ListSource`, `CsvReader` without header)
+or `HeadDense(list, headers)` (`CsvReader` with header) -/
+def lazyRow (hdr : Option (List String)) (vals : List C13.Val) : C13.DRow :=
+  match hdr with
+  | none => .plain vals
+  | some ns => .head (.plain vals) (C13.zipNames ns)
+
+/-- `LabelRows` wraps it in `LabelDense(row, i, tipe)`; the context of the interaction is its `.feats` = `DropOne(row, i)` -/
+def lazyContext (hdr : Option (List String)) (vals : List C13.Val) (i : Nat) : C13.DRow :=
+  .dropOne (lazyRow hdr vals) i
 
 /-! ### vocabulary used by the property statements -/
 
